@@ -25,7 +25,10 @@ Definition qobs := (list iobs * list cobs)%type.
 (* class object only, asked BEFORE anything that computes implementedBy(cls) at this step:
    id, providedBy(cls) mask, I.providedBy(cls) mask, list(directlyProvidedBy(cls)) *)
 Definition cpobs := (cls * nat * nat * list iface)%type.
-Definition stepobs := (nat * option qobs * option (list cpobs))%type.
+(* a super proxy super(B, x): the classes after B in the MRO of type(x) (CPython's), then the
+   masks of implementedBy(proxy), providedBy(proxy), I.providedBy(proxy) *)
+Definition sobs := (list cls * nat * nat * nat)%type.
+Definition stepobs := (nat * option qobs * option (list cpobs) * list sobs)%type.
 Definition case_t := (igraph * list (op * stepobs))%type.
 
 Definition mask_of (l : list nat) : nat := fold_left (fun a i => Nat.lor a (Nat.shiftl 1 i)) l 0.
@@ -64,22 +67,31 @@ Definition cpobs_eqb (a b : cpobs) : bool :=
   let '(c, p, ip, d) := a in let '(c', p', ip', d') := b in
   Nat.eqb c c' && Nat.eqb p p' && Nat.eqb ip ip' && lnat_eqb d d'.
 
-Definition model_stepobs (g : igraph) (st st' : state) (o : op) (q : option qobs) (cp : option (list cpobs)) : stepobs :=
-  (exc_code g st st' o, option_map (model_query g st') q, option_map (model_cp g st') cp).
+Definition model_sobs (g : igraph) (st : state) (a : sobs) : sobs :=
+  let '(rest, _, _, _) := a in
+  let m := mask_of (super_implemented g st rest) in (rest, m, m, m).
+Definition sobs_eqb (a b : sobs) : bool :=
+  let '(r, x, y, z) := a in let '(r', x', y', z') := b in
+  lnat_eqb r r' && Nat.eqb x x' && Nat.eqb y y' && Nat.eqb z z'.
+
+Definition model_stepobs (g : igraph) (st st' : state) (o : op) (q : option qobs) (cp : option (list cpobs))
+           (sp : list sobs) : stepobs :=
+  (exc_code g st st' o, option_map (model_query g st') q, option_map (model_cp g st') cp,
+   map (model_sobs g st') sp).
 
 Fixpoint model_trace (g : igraph) (st : state) (h : list (op * stepobs)) : list stepobs :=
   match h with
   | [] => []
-  | (o, (_, q, cp)) :: h' =>
+  | (o, (_, q, cp, sp)) :: h' =>
       let st' := step true g st o in
-      model_stepobs g st st' o q cp :: model_trace g st' h'
+      model_stepobs g st st' o q cp sp :: model_trace g st' h'
   end.
 
 Definition model_out (c : case_t) : list stepobs := model_trace (fst c) init (snd c).
 
 Definition stepobs_eqb (a b : stepobs) : bool :=
-  let '(e, q, cp) := a in let '(e', q', cp') := b in
-  Nat.eqb e e' && option_eqb qobs_eqb q q' && option_eqb (list_eqb cpobs_eqb) cp cp'.
+  let '(e, q, cp, sp) := a in let '(e', q', cp', sp') := b in
+  Nat.eqb e e' && option_eqb qobs_eqb q q' && option_eqb (list_eqb cpobs_eqb) cp cp' && list_eqb sobs_eqb sp sp'.
 
 Definition check_model (c : case_t) : bool :=
   list_eqb stepobs_eqb (model_out c) (map snd (snd c)).
@@ -122,6 +134,14 @@ Definition spec_cp (g : igraph) (L : ledger) (cp : list cpobs) : bool :=
                        within (lo_provided g L (TCls c)) (hi_provided g L (TCls c)) p && Nat.eqb ip p
                        && within (lo_dpb L (TCls c)) (hi_dpb L (TCls c)) (mask_of d) && nodupb d) cp.
 
+(* a super proxy reports what the rest of the MRO implements: the three forms agree and lie
+   between the ledger's bounds for exactly those classes *)
+Definition spec_sobs (g : igraph) (L : ledger) (a : sobs) : bool :=
+  let '(rest, x, y, z) := a in
+  forallb (fun c => Nat.ltb c (length (lcs L))) rest
+  && within (flat_map (lo_implemented g L) rest) (flat_map (hi_implemented g L) rest) x
+  && Nat.eqb y x && Nat.eqb z x.
+
 Definition l_target_builtin (L : ledger) (t : target) : bool :=
   match t with
   | TCls c => lclass_builtin L c
@@ -147,11 +167,12 @@ Definition spec_exc (g : igraph) (L' : ledger) (o : op) (code : nat) : bool :=
 Fixpoint spec_trace (g : igraph) (L : ledger) (h : list (op * stepobs)) : bool :=
   match h with
   | [] => true
-  | (o, (code, q, cp)) :: h' =>
+  | (o, (code, q, cp, sp)) :: h' =>
       let L' := lstep g L o in
       spec_exc g L' o code
       && match q with Some q => spec_query g L' q | None => true end
       && match cp with Some cp => spec_cp g L' cp | None => true end
+      && forallb (spec_sobs g L') sp
       && spec_trace g L' h'
   end.
 
